@@ -706,3 +706,31 @@ package queue
 //@   ensures [C01:nil_implies_every_insert_committed_together] result1 == nil && len(items) > 0 ==> durable >= at(P, durable) + len(items) && result0 == len(items)
 //@   ensures [C01:error_implies_no_insert_committed] result1 != nil ==> durable == at(P, durable) && result0 == 0
 //@   ensures [C01:no_transaction_left_open] !txOpen && txPending == 0
+
+// ---- C14: resume by id ----
+
+//@ func normalizeUniqueIDs
+//@   loop 1 invariant [seen_is_out] seen != nil && rangeindex < len(ids) && (forall k string :: k in seen <==> exists j int :: 0 <= j && j < len(out) && out[j] == k)
+//@   loop 1 invariant [clean_distinct] (forall j int :: 0 <= j && j < len(out) ==> out[j] != "" && exists i int :: 0 <= i && i <= rangeindex && trim(ids[i]) == out[j]) && (forall j int, k int :: 0 <= j && j < k && k < len(out) ==> out[j] != out[k])
+//@   loop 1 invariant [complete] forall i int :: 0 <= i && i <= rangeindex && trim(ids[i]) != "" ==> trim(ids[i]) in seen
+//@   ensures [C14:ids_trimmed_nonempty_from_the_request] forall j int :: 0 <= j && j < len(result) ==> result[j] != "" && exists i int :: 0 <= i && i < len(ids) && trim(ids[i]) == result[j]
+//@   ensures [C14:ids_distinct] forall j int, k int :: 0 <= j && j < k && k < len(result) ==> result[j] != result[k]
+//@   ensures [C14:every_named_id_kept] forall i int :: 0 <= i && i < len(ids) && trim(ids[i]) != "" ==> exists j int :: 0 <= j && j < len(result) && result[j] == trim(ids[i])
+
+//@ func (*MemoryStore).ResumeMessages
+//@   requires s != nil
+//@   modifies Envelope.State, Envelope.LeaseID, Envelope.LeaseUntil, Envelope.NextRunAt, Envelope.DeadReason, s.notify, storeNow
+//@   loop 1 ghost C set[string] := empty(string) step ite(resumed != pre(resumed) + card(C), add(C, id), C)
+//@   loop 1 invariant [wf_J3a] J3a(s)
+//@   loop 1 invariant [wf_J3b] J3b(s)
+//@   loop 1 invariant [wf_J4] J4(s)
+//@   loop 1 invariant [wf_J5] J5(s)
+//@   loop 1 invariant [wf_J6] J6(s)
+//@   loop 1 invariant [bounds] rangeindex < len(ids)
+//@   loop 1 invariant [partition] forall k string :: k in s.items ==> same(s.items[k]) || ((exists j int :: 0 <= j && j <= rangeindex && ids[j] == k) && old(s.items[k].State == StateCanceled) && resetTo(s.items[k], StateQueued, now))
+//@   loop 1 invariant [visited_processed] forall j int :: 0 <= j && j <= rangeindex && ids[j] in s.items && old(s.items[ids[j]].State == StateCanceled) ==> s.items[ids[j]].State == StateQueued
+//@   loop 1 invariant [count] resumed == card(C) && (forall k string :: k in C <==> (k in s.items && s.items[k].State != old(s.items[k].State)))
+//@   ensures [C14:only_selected_from_allowed_states] forall k string :: k in s.items ==> same(s.items[k]) || (idSelected(req.IDs, k) && old(s.items[k].State == StateCanceled) && resetTo(s.items[k], StateQueued, storeNow))
+//@   ensures [C14:every_selected_allowed_message_changed] forall j int :: 0 <= j && j < len(req.IDs) && trim(req.IDs[j]) != "" && trim(req.IDs[j]) in s.items && old(s.items[trim(req.IDs[j])].State == StateCanceled) ==> s.items[trim(req.IDs[j])].State == StateQueued
+//@   ensures [C14:count_equals_changes] result0.Resumed == card(setof(k string :: k in s.items && s.items[k].State != old(s.items[k].State))) && result0.Matched == result0.Resumed
+//@   ensures [no_error] result1 == nil
